@@ -63,6 +63,12 @@ def parse_mir(text):
             cur = Fn(name, params, ret, ln + 1); fns.append(cur); bb = None
             for i, t in params: cur.locals[i] = t
             continue
+        if (line.startswith('const ') or line.startswith('static ')) and line.endswith('= {'):
+            # promoted constants / consts with a body: evaluated like a zero-argument function when referenced
+            m = re.match(r'(?:const|static(?: mut)?) (.*?): (.*) = \{$', line)
+            if m:
+                cur = Fn(m.group(1), [], m.group(2), ln + 1); fns.append(cur); bb = None
+                continue
         if cur is None: continue
         if line == '}': cur = None; continue
         s = line.strip()
@@ -505,7 +511,10 @@ class Engine:
         raise Missing('operand ' + t)
 
     def mk_f64(s, txt):
-        return F64(3, z3.RealVal(txt))
+        # the literal is the shortest decimal that round-trips: the constant is that double, exactly
+        from fractions import Fraction
+        q = Fraction(float(txt))
+        return F64(3, z3.RealVal(f'{q.numerator}/{q.denominator}'), z3.BoolVal(txt.strip().startswith('-') and q == 0))
 
     def const(s, t):
         t = t.strip()
@@ -514,9 +523,9 @@ class Engine:
         if t == '()': return UNIT
         m = re.fullmatch(r'(-?\d+)_(i|u)(8|16|32|64|128|size)', t)
         if m: return z3.IntVal(int(m.group(1)))
-        m = re.fullmatch(r'(?:i|u)(?:8|16|32|64|128|size)::(MAX|MIN)', t)
+        m = re.fullmatch(r'(?:(?:core|std)::num::<impl )?((?:i|u)(?:8|16|32|64|128|size))>?::(MAX|MIN)', t)
         if m:
-            lo, hi = int_bounds(t.split('::')[0]); return z3.IntVal(hi if m.group(1) == 'MAX' else lo)
+            lo, hi = int_bounds(m.group(1)); return z3.IntVal(hi if m.group(2) == 'MAX' else lo)
         if t.startswith('"') or t.startswith('b"'): return Opaque('str:' + t)
         if t.startswith('ZeroSized: '):
             body = t[len('ZeroSized: '):]
@@ -531,6 +540,12 @@ class Engine:
         m = re.fullmatch(r'(-?)inf(?:f64)?|(?:core::|std::)?f64::(?:<impl f64>::)?(INFINITY|NEG_INFINITY|NAN)', t)
         if m: return F64(2 if (m.group(1) or m.group(2) == 'NEG_INFINITY') else (0 if m.group(2) == 'NAN' else 1), 0)
         if t in ('NaNf64', 'NaN'): return F64(0, 0)
+        if 'promoted[' in t:
+            parts = t.split('::')
+            for k in range(len(parts)):          # the use site prints the full module path, the definition a shorter one
+                pf = s.by_name.get('::'.join(parts[k:]))
+                if pf is not None and not pf.params: return s.run_fn(pf, [])
+            raise Missing('promoted constant ' + t)
         if re.fullmatch(r'[\w:<>, {}@.#\[\]&\'()\-=]+', t): return FnItem(t)
         raise Missing('const ' + t)
 
@@ -610,6 +625,10 @@ class Engine:
     # float <-> int casts: `as` rounds; exact when |x| <= 2^53
     RND = z3.Function('f64_round_of_int', z3.IntSort(), z3.RealSort())
     def int_to_float(s, v):
+        vs = z3.simplify(v)
+        if z3.is_int_value(vs):       # constant: round to nearest double exactly as `as f64` does
+            from fractions import Fraction
+            q = Fraction(float(vs.as_long())); return F64(3, z3.RealVal(f'{q.numerator}/{q.denominator}'))
         exact = z3.And(v >= -(1 << 53), v <= (1 << 53))
         return F64(3, z3.If(exact, z3.ToReal(v), Engine.RND(v)))
     def float_to_int(s, f, ty):
